@@ -262,7 +262,7 @@ func (e *Engine) callFunction(s *State, x ssa.CallInstruction, fn *ssa.Function,
 			e.applyContract(s, x, fn, ct, args)
 			return nil, true
 		}
-		if onStack {
+		if onStack && !e.cfg.AllowRecursion {
 			e.fail("recursive call to %s without a contract", e.shortFunc(fn))
 		}
 		if len(s.frames) >= e.cfg.MaxDepth {
